@@ -84,3 +84,14 @@ CHECKS["C15"] = {
     "units": [{"name": "c15", "pkg": "c15", "run": "^Test", "shards": 8}],
     "expect_checks": ["c15.probe"],
 }
+
+CHECKS["C03"] = {
+    "level": "exploration",
+    "technique": "property-based testing (rapid): model-driven generator of legal client frame scripts (SETTINGS incl. unknown ids, WINDOW_UPDATE, PRIORITY, HEADERS with/without priority in any pseudo-header order, CONTINUATION splits, DATA, trailers, several requests) sent by a raw HTTP/2 peer; each request is held in a gating header injector and released at a drawn point after quiescence, so the expected header is exactly the reference fingerprint of the frames sent so far; plus a direct Marshal(n)-vs-reference layer",
+    "rule": "case = frame script + priority-frame limit N from {0,1,count-1,count,count+1,10000,unlimited}. Non-trivial = at least two requests on the connection, or more priority entries than a positive N, or a CONTINUATION split, or a second SETTINGS frame; distinct by hash of the script.",
+    "level_text": "Generated-input search with an exact reference oracle (harness/ref/h2fp, written from the statement): with a quiescence barrier before each release the admissible history prefix is a single one, so the comparison is equality.",
+    "level_note": _E2E_NOTE + " WINDOW_UPDATE increments below 10 are not generated because the statement does not pin the zero padding of WU.",
+    "assumptions": ["scripts are legal by construction; a script the server rejects is discarded and counted (0 in practice)"],
+    "units": [{"name": "c03", "pkg": "c03", "run": "^Test", "shards": 8}],
+    "expect_checks": ["c03.e2e", "c03.marshal"],
+}
